@@ -784,3 +784,38 @@ def _norm_small(e):
 def _same_call_payload(a, b):
     return a[0] == "place" and b[0] == "place" and isinstance(a[1], tuple) and isinstance(b[1], tuple) and a[1][0] == "call" and \
         b[1][0] == "call" and len(a[1]) > 3 and len(b[1]) > 3 and a[1][3] is b[1][3]
+
+
+def adt_fields_touched(F, body, adt_suffix, depth=3):
+    """Names of the fields of the given struct that `body` (with its closures and, recursively, the local functions it calls)
+    mentions in any place -- reads and writes alike."""
+    import json as _json
+    seen = set()
+    out = set()
+
+    def walk(x):
+        if isinstance(x, dict):
+            if x.get("k") == "field" and str(x.get("adt", "")).endswith(adt_suffix):
+                out.add(x.get("name"))
+            for v in x.values():
+                walk(v)
+        elif isinstance(x, list):
+            for v in x:
+                walk(v)
+
+    def go(b, d):
+        if b.path in seen:
+            return
+        seen.add(b.path)
+        for bb in sorted(b.reachable()):
+            blk = b.blocks[bb]
+            walk(blk["stmts"])
+            walk(blk.get("term"))
+        for cb in with_closures(F, b)[1:]:
+            go(cb, d)
+        if d > 0:
+            for c in b.calls():
+                if c.callee in F.bodies:
+                    go(F.bodies[c.callee], d - 1)
+    go(body, depth)
+    return out
